@@ -19,13 +19,14 @@ pub fn run(ctx: &Ctx) -> Report {
     let counters = local.counters.clone();
     let g = |k: &str| counters.get(k).copied().unwrap_or(0);
     let mut inconclusive = vec![];
-    for pop in ["all", "decoys-on", "decoys-off", "in-payload", "in-disclosed-value", "decoys-on.in-payload", "decoys-on.in-disclosed-value", "decoys-off.in-payload", "decoys-off.in-disclosed-value"] {
+    for pop in ["all", "decoys-on", "decoys-off", "in-payload", "in-disclosed-value", "decoys-on.in-payload", "decoys-on.in-disclosed-value", "decoys-off.in-payload", "decoys-off.in-disclosed-value",
+        "decoys-off.reals=2", "decoys-off.reals=3", "decoys-off.reals=4", "decoys-on.reals=2", "decoys-on.reals=3", "decoys-off.partly-visible-object", "decoys-on.partly-visible-object"] {
         let lists = g(&format!("order.{pop}.lists>=2real"));
         let inorder = g(&format!("order.{pop}.in-member-order"));
         if lists < 200 {
             // the three main populations must be large enough; sub-populations by location are
             // judged only when they happen to contain >= 200 lists
-            if ctx.only_case.is_none() && !pop.contains("in-") {
+            if ctx.only_case.is_none() && !pop.contains("in-") && !pop.contains("reals=") && !pop.contains("partly") {
                 inconclusive.push(format!("order clause: only {lists} qualifying _sd lists in population {pop} (< 200)"));
             }
         } else if inorder == lists {
@@ -51,7 +52,7 @@ pub fn run(ctx: &Ctx) -> Report {
             });
         }
     }
-    for pop in ["decoys-on", "decoys-on.in-payload", "decoys-on.in-disclosed-value"] {
+    for pop in ["decoys-on", "decoys-on.in-payload", "decoys-on.in-disclosed-value", "decoys-on.partly-visible-object"] {
         let wd = g(&format!("order.{pop}.lists-with-decoy"));
         let dl = g(&format!("order.{pop}.all-decoys-last"));
         if wd >= 200 && dl == wd {
@@ -100,6 +101,8 @@ fn one_case(ctx: &Ctx, case: u64, l: &mut Local) {
             wide8.insert(format!("w#9{i};"), json!(i));
         }
         s.u["many-objects#0;"] = Value::Array(items);
+        // one large hidden value early in the claims (decoys must not depend on what was disclosed before)
+        s.u["portrait#000;"] = json!("P".repeat(*r.pick(&[6_200usize, 8_192, 9_000, 20_000])));
         s.u["exactly-8n-members#00;"] = Value::Object(wide8);
         s.strat = gen::gen_strategy(&mut r, &s.u, cfg.strat);
         l.count("boundary.many-objects-credentials");
@@ -182,7 +185,13 @@ fn one_case(ctx: &Ctx, case: u64, l: &mut Local) {
             }
             let in_order = reals.windows(2).all(|w| w[0] < w[1]);
             let loc = if list.in_disclosure { "in-disclosed-value" } else { "in-payload" };
-            for pop in ["all".to_string(), tagk.to_string(), loc.to_string(), format!("{tagk}.{loc}")] {
+            // (also by the exact number of real digests — a two-entry list has only two orders — and for
+            // objects that keep visible members next to the hidden ones)
+            let mut pops = vec!["all".to_string(), tagk.to_string(), loc.to_string(), format!("{tagk}.{loc}"), format!("{tagk}.reals={}", reals.len().min(5))];
+            if list.has_visible {
+                pops.push(format!("{tagk}.partly-visible-object"));
+            }
+            for pop in pops {
                 l.count(&format!("order.{pop}.lists>=2real"));
                 if in_order {
                     l.count(&format!("order.{pop}.in-member-order"));
@@ -203,7 +212,11 @@ fn one_case(ctx: &Ctx, case: u64, l: &mut Local) {
             if decoys {
                 if let Some(first_decoy) = list.entries.iter().position(|e| e.is_none()) {
                     let last = list.entries[first_decoy..].iter().all(|e| e.is_none());
-                    for pop in ["decoys-on".to_string(), format!("decoys-on.{loc}")] {
+                    let mut dpops = vec!["decoys-on".to_string(), format!("decoys-on.{loc}")];
+                    if list.has_visible {
+                        dpops.push("decoys-on.partly-visible-object".to_string());
+                    }
+                    for pop in dpops {
                         l.count(&format!("order.{pop}.lists-with-decoy"));
                         if last {
                             l.count(&format!("order.{pop}.all-decoys-last"));
